@@ -1193,9 +1193,14 @@ func (s *UtxoStore) GetBindingHistoryDetail(tx mwdb.ReadTransaction, addrMgr *ke
 	return ret, nil
 }
 
-func (s *UtxoStore) ExistCreditFromTx(rtx mwdb.ReadTransaction, hash *wire.Hash) bool {
+func (s *UtxoStore) ExistCreditFromTx(rtx mwdb.ReadTransaction, hash *wire.Hash) (bool, error) {
 	nsCredits := rtx.FetchBucket(s.bucketMeta.nsCredits)
 	iter := nsCredits.NewIterator(mwdb.BytesPrefix(hash[:]))
 	defer iter.Release()
-	return iter.Next()
+	exist := iter.Next()
+	// a read error is not "no credit": the caller would skip a spend of ours
+	if err := iter.Error(); err != nil {
+		return false, err
+	}
+	return exist, nil
 }
